@@ -426,6 +426,47 @@ func c12Diagnostics(c *Ctx, ns *numberScanner) {
 		}
 	}
 	c.R.Check(rule, "trailing-separator", c.P.Pos(f.Pos()), trailing, "a fragment that ends in `_` must raise a diagnostic after the loop")
+	// ... and on every way out of the loop: the end of the text as well as a character that ends the fragment
+	isTest := func(b *ssa.BasicBlock) bool {
+		iff, ok := b.Instrs[len(b.Instrs)-1].(*ssa.If)
+		if !ok || iff.Cond != ssa.Value(prevSep) {
+			return false
+		}
+		for _, in := range b.Succs[0].Instrs {
+			if c.isScanDiag(in, "M_Numeric_separators_are_not_allowed_here") {
+				return true
+			}
+		}
+		return false
+	}
+	nexit := 0
+	for _, b := range f.Blocks {
+		if !ns.FragLoop.Body[b] {
+			continue
+		}
+		for _, s := range b.Succs {
+			if ns.FragLoop.Body[s] {
+				continue
+			}
+			nexit++
+			seen := map[*ssa.BasicBlock]bool{}
+			work := []*ssa.BasicBlock{s}
+			var leak *ssa.BasicBlock
+			for len(work) > 0 && leak == nil {
+				x := work[len(work)-1]
+				work = work[:len(work)-1]
+				if seen[x] || isTest(x) {
+					continue
+				}
+				seen[x] = true
+				if _, ok := x.Instrs[len(x.Instrs)-1].(*ssa.Return); ok {
+					leak = x
+				}
+				work = append(work, x.Succs...)
+			}
+			c.R.Check(rule, fmt.Sprintf("trailing-separator:loop-exit#%d", nexit), c.P.InstrPos(b.Instrs[len(b.Instrs)-1]), leak == nil, "from this way out of the digit loop the fragment scanner returns without testing the previous-was-separator state: a literal that ends in `_` here (e.g. at the very end of the text) is accepted without a diagnostic")
+		}
+	}
 	// state updates: a digit allows a separator and clears previous-was-separator; an accepted separator forbids the
 	// next one and records itself (otherwise `1__0` passes as 10, or a trailing `_` goes unnoticed)
 	nextState := func(r *FoldResult, p *ssa.Phi) (bool, bool) {
@@ -724,6 +765,7 @@ func runC15(c *Ctx) {
 	c15LineBreakSet(c)
 	c15Column(c)
 	c15Speculation(c)
+	c15ExplicitSpans(c)
 }
 
 // c15Speculation: look-ahead must put back every piece of scanner state that scanning changes;
